@@ -851,6 +851,14 @@ def check_const_tables(run, repo):
                 ok = key in KNOWN_TABLE_SITES
                 why = KNOWN_TABLE_SITES.get(key, '')
                 if not ok:
+                    # the lookup sits inside `if <key> < len(<table>):` / `if <key> in <table>:`
+                    ktxt, btxt = ast.unparse(n.slice), ast.unparse(n.value)
+                    for iff in ast.walk(fn):
+                        if isinstance(iff, ast.If) and any(x is n for b_ in iff.body for x in ast.walk(b_)):
+                            tt = ast.unparse(iff.test)
+                            if ('%s < len(%s)' % (ktxt, btxt)) in tt or ('%s in %s' % (ktxt, btxt)) in tt:
+                                ok, why = True, 'guarded by `%s`' % tt[:60]
+                if not ok:
                     tm, tv = tables[base]
                     if isinstance(tv, ast.Dict) and tv.keys and all(isinstance(k, ast.Attribute) and isinstance(k.value, ast.Name) for k in tv.keys):
                         enums = {k.value.id for k in tv.keys}
